@@ -51,6 +51,8 @@ CHECKS = {
         rule="cases = keys / byte strings / slot ranges, each distinct by construction of the enumeration; non-trivial = every case (each compares the real function's result with the reference)",
         parts=[
             dict(pkg="./redis-shake/common", harness=["common"], test="^TestVerif_C15$", shards=16, budget=dict(quick=60, thorough=1200)),
+            # cluster layouts: CLUSTER SLOTS replies in which masters own one to three ranges -> the real GetSlotDistribution -> the real checkpoint key per shard
+            dict(pkg="./redis-shake/common", harness=["common"], test="^TestVerif_C15T$", shards=16, budget=dict(quick=60, thorough=600)),
             dict(pkg="./redis-shake/dbSync/latencymonitor", harness=["latencymonitor"], test="^TestVerif_C15L$", shards=16, budget=dict(quick=60, thorough=600)),
             dict(pkg="./redis-shake/filter", harness=["filter"], test="^TestVerif_C15F$", shards=1, budget=dict(quick=60, thorough=600)),
         ],
